@@ -271,8 +271,63 @@ def rand_attrshape(rng, doc):
     return text
 
 
+SS_AXES = ['', 'child::', '@', 'attribute::', 'self::', 'descendant::', 'descendant-or-self::', '//']
+SS_ELEM_TESTS = ['*', 'text()', 'node()', 'comment()', 'processing-instruction()', "processing-instruction('php')",
+                 'processing-instruction("py")', "processing-instruction('x')", 'x:*', 'y:*']
+SS_ATTR_TESTS = ['*', 'x:*', 'y:*', 'text()', 'node()', 'comment()', 'processing-instruction()']
+
+
+def rand_singlestep(rng, doc):
+    """ONE location step — SingleStepStrategy's domain — over every axis spelling and every node test (names and
+    namespaced names of the document, wildcards, the four node-type tests, processing-instruction targets; on the
+    attribute axis the attribute names of the document, `@*`, `@x:*` and node-type tests), with 0-2 predicates,
+    positional ones included"""
+    nodes = []
+
+    def walk(n):
+        nodes.append(n)
+        for k in n.get('k', []):
+            walk(k)
+    walk(doc)
+    elems = [n for n in nodes if 'e' in n]
+    ax = rng.choice(SS_AXES)
+    attr_axis = ax in ('@', 'attribute::')
+    r = rng.random()
+    if attr_axis:
+        owned = [a for n in elems for a in n.get('a', [])]
+        if r < 0.5 and owned:
+            a = rng.choice(owned)
+            test = a[1] if not a[0] else '%s:%s' % ('x' if a[0] == 'urn:x' else 'y', a[1])
+        elif r < 0.6:
+            test = rng.choice(list(G.ATTR_NAMES))
+        else:
+            test = rng.choice(SS_ATTR_TESTS)
+    else:
+        if r < 0.45 and elems:
+            q = rng.choice(elems)['e']
+            test = q[1] if not q[0] or rng.random() < 0.3 else '%s:%s' % ('x' if q[0] == 'urn:x' else 'y', q[1])
+        elif r < 0.55:
+            test = rng.choice(list(G.NAMES))
+        else:
+            test = rng.choice(SS_ELEM_TESTS)
+    step = ax + test
+    k = 0
+    while rng.random() < 0.4 and k < 2:
+        if rng.random() < 0.5:
+            step += '[%s]' % rng.choice(['1', '2', '3', 'position()=2', 'last()', '1.0', '2 ', 'true()', '@n', '1=1'])
+        else:
+            step += '[%s]' % G.rand_pred(rng, G.FULL, 2, not attr_axis)
+        k += 1
+    return step
+
+
 def gen_case(rng):
     doc = G.rand_doc(rng, rng.choice([5, 7, 9, 12]), deep=rng.random() < 0.5)
+    if rng.random() < 0.08:
+        case = {'doc': doc, 'kind': 'strategies', 'path': rand_singlestep(rng, doc), 'singlestep': True}
+        if rng.random() < 0.15:
+            case['ns_events'] = True
+        return case
     r = rng.random()
     case = {'doc': doc}
     if rng.random() < 0.15:
@@ -438,6 +493,18 @@ def check_cases(cases, res):
     for i, case in enumerate(cases):
         res.evaluations += 1
         res.count('kind:' + case['kind'])
+        if case.get('singlestep'):
+            res.count('gen:singlestep')
+            try:
+                st = P.PathParser(case['path']).parse()[0]
+                if len(st) == 1:
+                    res.count('single:axis=%s' % st[0][0])
+                    res.count('single:test=%s%s' % (type(st[0][1]).__name__,
+                                                     ':' + str(getattr(st[0][1], 'principal_type', ''))
+                                                     if hasattr(st[0][1], 'principal_type') else ''))
+                    res.count('single:preds=%d' % len(st[0][2]))
+            except Exception as e:  # noqa
+                res.count('single:parse-error:%s' % type(e).__name__)
         if case.get('attrshape'):
             res.count('gen:attrshape')
             try:
